@@ -19,12 +19,12 @@ class CbmcOb(Ob):
     """One CBMC query: harness function `func` of the C files `files` (compiled by goto-cc with `defines`)."""
     kind = 'cbmc'
     def __init__(s, oid, files, func, *, defines=(), incs=(), backends=('minisat',), unwind=None, timeout=60, extra=(),
-                 replay_link=(), replay_files=None, replay_defines=(), witness=True, bounds='', engine='B', mode='exact', partial_loops=False, **kw):
+                 replay_link=(), replay_files=None, replay_defines=(), witness=True, custom_replay=None, bounds='', engine='B', mode='exact', partial_loops=False, **kw):
         Ob.__init__(s, oid, **kw)
         s.files = tuple(files); s.func = func; s.defines = tuple(defines); s.incs = tuple(incs)
         s.backends = tuple(backends); s.unwind = unwind; s.timeout = timeout; s.extra = tuple(extra)
         s.replay_link = tuple(replay_link); s.replay_files = replay_files; s.replay_defines = tuple(replay_defines)
-        s.witness = witness; s.bounds = bounds; s.engine = engine; s.mode = mode; s.partial_loops = partial_loops
+        s.custom_replay = custom_replay; s.witness = witness; s.bounds = bounds; s.engine = engine; s.mode = mode; s.partial_loops = partial_loops
 
 
 class SymOb(Ob):
@@ -105,6 +105,14 @@ class Check:
         inp = base + '.in'
         write(inp, ''.join('%s %x\n' % kv for kv in sorted(r['inputs'].items())))
         write(base + '.trace.txt', r.get('raw', '')[-200000:])
+        if ob.custom_replay is not None:
+            try:
+                conf, out = ob.custom_replay(s, ob, inp, r)
+            except ToolFailure as e:
+                return {'verdict': 'error', 'detail': 'replay build failed: ' + str(e)[-800:], 'replay': inp}
+            info = {'replay': inp, 'replay_out': out[-600:], 'inputs': {k: hex(v) for k, v in list(r['inputs'].items())[:40]}}
+            info['verdict'] = 'violated' if conf else 'unconfirmed'; info['confirmed'] = bool(conf)
+            return info
         exe = os.path.join(s.wd, 'replay_%s' % abs(hash(ob.oid)))
         memsafety = any(('dereference failure' in f or 'bounds' in f or 'pointer' in f) for f in r['failed'])
         files = list(ob.replay_files if ob.replay_files is not None else [f for f in ob.files if not f.endswith('.gen.c')])
